@@ -127,7 +127,7 @@ def rule_c(repo, chk):
     chk.touch(f)
     g = f.cfg()
     ev = f.params[1]
-    fires = [n for n in g.nodes if n.kind == 'stmt' and pat.fires(n.ast, 'child:complete')]
+    fires = [n for n in g.nodes if n.kind == 'stmt' and pat.fires(n.ast, 'child:complete', f)]
     need(fires, 'C05.c: no fire of <name>_complete in the completion walk')
     decs = [n for n in g.nodes if n.kind == 'stmt' and isinstance(n.ast, ast.AugAssign) and src(n.ast.target) == f'{ev}.effects'
             and isinstance(n.ast.op, ast.Sub) and pat.is_const(n.ast.value, 1)]
@@ -149,8 +149,9 @@ def rule_c(repo, chk):
                discr='decrement-first')
         q = pat.guarded_by(g, n, pat.test_edge(lambda t, pol: pol == 'T' and src(t) == f'{ev}.complete'), start=head)
         chk.ob('c', f.ref, '<name>_complete is fired only for events that requested it', q is None, loc(f, n.ast), discr='fire-if-requested')
-        c = pat.fires(n.ast, 'child:complete')[0]
-        chan_ok = "complete_channels" in src(c) and f'{ev}.channels' in src(c)
+        c = pat.fires(n.ast, 'child:complete', f)[0]
+        chan_src = ' '.join(src(v) for a in c.args[1:] for v in pat.deref(f, a.value if isinstance(a, ast.Starred) else a))
+        chan_ok = "complete_channels" in chan_src and f'{ev}.channels' in chan_src
         chk.ob('c', f.ref, '<name>_complete goes to complete_channels, defaulting to the event channels', chan_ok, loc(f, c), discr='complete-channels',
                nontrivial=False)
     chk.ob('c', f.ref, '<name>_complete is fired from exactly one site', len(fires) == 1, loc(f, f.node), discr='fire-once')
@@ -187,7 +188,8 @@ def rule_c(repo, chk):
         # the cause must be read before the link is deleted
         for r in reads:
             for u in unlink:
-                if Q.reachable_without(g, r, start=u, avoid_node=lambda n: n is head) is not None:
+                # (a read that comes after the walk has moved on — `event = cause` — reads the link of the next event, which is intact)
+                if Q.reachable_without(g, r, start=u, avoid_node=lambda n: n is head or n in moves) is not None:
                     ok = False
         chk.ob('c', f.ref, 'the next event of the walk is the cause read before the link was removed', ok, loc(f, m.ast), discr='cause-read-first')
     # only tracked events take part
